@@ -244,7 +244,7 @@ CLAIMED = {
             'zero / non-zero on all orderings of the real part: never True off the real line), and every comparison '
             'method answers NotImplemented - never a truthy exception class - for operands it cannot handle (both '
             'found as defects and repaired); an exact rational operand (Fraction / mpq) is not widened to its enclosure: '
-            'the interval is scaled by the denominator with exact products and compared with the numerator (F-R13).',
+            'the interval is scaled by the denominator with exact products and compared with the numerator (F-R13); mp\'s eps as an operand keeps its value instead of being re-evaluated at iv.prec (F-R15 = X-R14 of C38).',
             'Trusts the small evaluator in sa/order_abs.py and that mpf_lt/le/gt/ge are exact (C05 '
             'clause); nan endpoints excluded.',
             'DESIGN.md section 2, Engine F'),
@@ -362,7 +362,7 @@ CLAIMED = {
             'precision in a finally clause; fp precision setters store nothing; clone copies every constant-initialised public '
             'setting (X-R3c); data computed in a borrowed context holds no lazy constant and the borrowed context\'s '
             'trap_complex is neutralised (X-R10, X-R11); matrix entries taken over without conversion come from a matrix of '
-            'the same context (X-R12); constants of another context are evaluated at the receiving context (X-R13).  '
+            'the same context (X-R12); constants of another context are evaluated at the receiving context (X-R13), except eps, which is defined by the precision of its own context and keeps its value (X-R14; a regression of the repair behind X-R13, repaired).  '
             'That a clone computes the same values as mp is numerical and not decided.',
             'Module-level / default-argument caches are decided under C33 (D-R3).  Trusts Engine A '
             'summaries for "leaves the precision changed".',
